@@ -310,5 +310,75 @@ func TestVerifC09(t *testing.T) {
 		coq := fmt.Sprintf("CStress %d %d %s %d", c0, len(cs), vharness.Ns(sorted), fin)
 		out.Emit(vharness.Case{Kind: "stress", Coq: coq, Key: fmt.Sprintf("stress-%d-%s", it, coq[:20]), Nontrivial: true, OracleOK: ok, Note: note, Sig: sig})
 	}
+	// ---- several groups of one store: the account group and the contact groups of an account share
+	// the device key; every group keeps its own chain and its own gap-free run of counters ----
+	nMulti := vharness.Budget(6, 100)
+	for it := 0; it < nMulti; it++ {
+		w := c09new(t, 1, 0, it%2 == 1, rng.Int63()) // the account group of a fresh store
+		groups := []*protocoltypes.Group{w.g, vGroup(t, 2, w.store), vGroup(t, 2, w.store), vGroup(t, 0, w.store)}
+		for _, g := range groups[1:] {
+			if err := w.store.PutGroup(ctx, g); err != nil {
+				t.Fatal(err)
+			}
+		}
+		per := 3 + rng.Intn(5)
+		envs := make([][][]byte, len(groups))
+		var mu sync.Mutex
+		seal := func(gi, k int) {
+			e, err := w.store.SealEnvelope(ctx, groups[gi], vPayload(uint64(gi*1000+k), 4))
+			if err != nil {
+				return
+			}
+			mu.Lock()
+			envs[gi] = append(envs[gi], e)
+			mu.Unlock()
+		}
+		if it%2 == 0 {
+			// sequential, round robin over the groups
+			for k := 0; k < per; k++ {
+				for gi := range groups {
+					seal(gi, k)
+				}
+			}
+		} else {
+			var wg sync.WaitGroup
+			for gi := range groups {
+				for s := 0; s < 2; s++ {
+					wg.Add(1)
+					go func(gi, s int) {
+						defer wg.Done()
+						for k := 0; k < per; k++ {
+							seal(gi, s*100+k)
+						}
+					}(gi, s)
+				}
+			}
+			wg.Wait()
+		}
+		for gi, g := range groups {
+			var cs []uint64
+			for _, e := range envs[gi] {
+				_, h, err := w.store.OpenEnvelopeHeaders(e, g)
+				if err != nil {
+					t.Fatal(err)
+				}
+				cs = append(cs, h.Counter)
+			}
+			md, _ := w.store.GetOwnMemberDeviceForGroup(g)
+			gpk, _ := g.GetPubKey()
+			fin := uint64(0)
+			if ck, err := w.store.getDeviceChainKeyForGroupAndDevice(ctx, gpk, md.Device()); err == nil {
+				fin = ck.Counter
+			}
+			ok, sig, note := oracle(0, cs, fin, "")
+			if !ok {
+				note = fmt.Sprintf("one store sealing on %d groups (group %d of them, type %v): %s", len(groups), gi, g.GroupType, note)
+			}
+			sorted := append([]uint64(nil), cs...)
+			sort.Slice(sorted, func(i, j int) bool { return sorted[i] < sorted[j] })
+			coq := fmt.Sprintf("CStress 0 %d %s %d", len(cs), vharness.Ns(sorted), fin)
+			out.Emit(vharness.Case{Kind: "groups", Coq: coq, Key: fmt.Sprintf("groups-%d-%d", it, gi), Nontrivial: true, OracleOK: ok, Note: note, Sig: sig})
+		}
+	}
 	t.Logf("C09 harness: %d cases", out.N)
 }
